@@ -81,6 +81,18 @@ static thread_local bool t_held = false;
 static bool g_trace = false;
 static std::atomic<bool> g_overflow{false};
 
+// C11c: calls of f made by this OS thread since its last logged event, compressed to one
+// `live.run first count` line (consecutive indices, each call got the expected value and
+// returned); flushed under the log lock right before the thread's next logged event, so the
+// position of the calls relative to the worker's own pops / decrement is exact
+struct run_t
+{
+    long long first = -1, count = 0;
+};
+static thread_local run_t t_run;
+static bool g_explicit_calls = false;
+static int g_token = 0;
+
 static void lock_log()
 {
     while (g_lock.test_and_set(std::memory_order_acquire)) {}
@@ -99,6 +111,11 @@ static void append(char const* site, void const* o, long long a, long long b)
         auto it = g_obj.find(o);
         if (it == g_obj.end()) it = g_obj.emplace(o, int(g_obj.size()) + 1).first;
         id = it->second;
+    }
+    if (t_run.count > 0)
+    {
+        g_log.push_back(ev{my_tid(), "live.run", 0, t_run.first, t_run.count});
+        t_run.count = 0;
     }
     g_log.push_back(ev{my_tid(), site, id, a, b});
     // a healthy run logs O(chunks * workers) events; a runaway one (e.g. a worker popping from
@@ -332,6 +349,10 @@ static void run_live(case_t const& c, ex::thread_pool_scheduler sched)
     for (long long i = 0; i <= counted; ++i) g_counts[i].store(0, std::memory_order_relaxed);
     int const token = 4711 + int(c.geti("seed", 1) % 1000);
     for (auto t : thr) note("live.throws", nullptr, t, 0);
+    // C11c: the predecessor's value pack (token) and whether every call is logged individually
+    g_token = token;
+    g_explicit_calls = nn >= 0 && nn <= 256;
+    note("live.tok", nullptr, token, g_explicit_calls ? 1 : 0);
 
     long long calls_at_signal = -1, inflight_at_signal = -1, err_index = -1;
     int out = 0;
@@ -352,6 +373,12 @@ static void run_live(case_t const& c, ex::thread_pool_scheduler sched)
                     }
                     if (v != token) g_badval.fetch_add(1);
                     if (logcalls) note("live.call", nullptr, ii, v == token ? 1 : 0);
+                    // C11c: events of the composed model: call begins (index, value pack seen)
+                    bool t0 = false;
+                    for (auto x : thr) t0 = t0 || x == ii;
+                    bool const expl = g_explicit_calls || t0 || v != token ||
+                        (t_run.count > 0 && ii != t_run.first + t_run.count);
+                    if (expl) note("live.cbeg", nullptr, ii, v);
                     if (slow)
                     {
                         auto const end = std::chrono::steady_clock::now() + std::chrono::microseconds(15);
@@ -361,6 +388,13 @@ static void run_live(case_t const& c, ex::thread_pool_scheduler sched)
                     bool t = false;
                     for (auto x : thr) t = t || x == ii;
                     g_inflight.fetch_sub(1, std::memory_order_acq_rel);
+                    // C11c: call returns / throws
+                    if (expl) note(t ? "live.cthrow" : "live.cret", nullptr, ii, 0);
+                    else
+                    {
+                        if (t_run.count == 0) t_run.first = ii;
+                        ++t_run.count;
+                    }
                     if (t) throw idx_error{ii};
                 }) |
             ex::then([&](int v) {
